@@ -376,6 +376,8 @@ class Engine:
         return (cell, path)
 
     def norm_elem(self, st, fr, e):
+        if e[0] == "sub" and not e[3]:
+            return ("srange", e[1], e[2])        # `[head @ .., last]` patterns on arrays: a constant range of the place
         if e[0] == "idx":
             iv = self.read_loc(st, fr.cells[e[1]], ())
             return ("vidx", iv)
@@ -421,6 +423,8 @@ class Engine:
             return v[1] if v[0] == "box" else v
         if k == "sub":
             return ("subslice", v, e[1], e[2], e[3])
+        if k == "srange" and isinstance(e[1], int) and isinstance(e[2], int):
+            return ("slice_of", v, ("int", e[1]), ("int", e[2]))
         return ("proj?", v, e)
 
     def read_loc(self, st, cell, path):
